@@ -758,7 +758,7 @@ theorem sustain_of {m a : Module} (hsmp : m.smp = clampC a.smp 0 maxSamples)
     | none => rfl
     | some x0 =>
       simp only [Option.map_some, smpStepS, smpStepX, hlt, if_true, hs, hx]
-      exact epilogueSmp_xtraOK s0 x0
+      exact epilogueSmp_xtraOK (epilogueLoop s0) x0
 
 theorem orders_of {m e : Module}
     (h : m.len = 0 ∨ (m.len = e.len ∧ (firstValidOrder e : Int) < e.len ∧ m.xxo = e.xxo ∧ m.pat = e.pat)) :
@@ -924,13 +924,63 @@ theorem epilogueSmp_name (s : Sample) (x : Xtra) : (epilogueSmp s x).1.name = s.
   unfold epilogueSmp
   exact name_core s _ _
 
+theorem epilogueLoop_name (s : Sample) : (epilogueLoop s).name = s.name := by
+  unfold epilogueLoop; split <;> rfl
+
 theorem smpStepS_name (smp : Int) (xtra : List Xtra) (i : Nat) (s : Sample) :
     (smpStepS smp xtra i s).name = s.name := by
   unfold smpStepS
   split
   · cases xtra[i]? with
-    | none => rfl
-    | some x => exact epilogueSmp_name s x
+    | none => exact epilogueLoop_name s
+    | some x => rw [epilogueSmp_name, epilogueLoop_name]
   · rfl
+
+/-! ### The epilogue's sample-loop block -/
+
+theorem sampleLoopOK_of (s' : Sample) (hd : Bool) (fl : Bool) (lps lpe len : Int)
+    (h1 : s'.hasData = hd) (h2 : s'.floop = fl) (h3 : s'.lps = lps) (h4 : s'.lpe = lpe) (h5 : s'.len = len)
+    (h : (hd && fl) = true → 0 ≤ lps ∧ lps < lpe ∧ lpe ≤ len) : sampleLoopOK s' = true := by
+  simp only [sampleLoopOK, Bool.or_eq_true, Bool.not_eq_true', Bool.and_eq_true, decide_eq_true_eq]
+  rw [h1, h2, h3, h4, h5]
+  by_cases hh : (hd && fl) = true
+  · right; have := h hh; omega
+  · left; simpa using hh
+
+theorem epilogueLoop_ok (s : Sample) : sampleLoopOK (epilogueLoop s) = true := by
+  unfold epilogueLoop
+  split
+  · exact sampleLoopOK_of _ s.hasData false 0 0 s.len rfl rfl rfl rfl rfl (by simp)
+  · rename_i hc
+    apply sampleLoopOK_of s s.hasData s.floop s.lps s.lpe s.len rfl rfl rfl rfl rfl
+    intro hh
+    simp only [Bool.and_eq_true, Bool.or_eq_true, decide_eq_true_eq, not_and, not_or] at hc hh
+    have := hc hh
+    omega
+
+theorem loop_core (s : Sample) (sus sue : Int) :
+    sampleLoopOK (if sus ≥ s.len ∨ sus ≥ sue then
+       (({ s with fsloop := false, fsloopBidir := false } : Sample), ({ sus := 0, sue := 0 } : Xtra))
+     else (s, { sus := sus, sue := sue })).1 = sampleLoopOK s := by
+  split <;> rfl
+
+theorem epilogueSmp_loopOK (s : Sample) (x : Xtra) : sampleLoopOK (epilogueSmp s x).1 = sampleLoopOK s := by
+  unfold epilogueSmp
+  exact loop_core s _ _
+
+theorem sampleLoops_of {m a : Module} (hsmp : m.smp = clampC a.smp 0 maxSamples)
+    (hxxs : m.xxs = a.xxs.mapIdx (smpStepS (clampC a.smp 0 maxSamples) a.xtra)) : sampleLoopsOK m = true := by
+  unfold sampleLoopsOK
+  rw [allBelow_iff]
+  intro i hi
+  rw [hxxs, List.getElem?_mapIdx]
+  have hlt : (i : Int) < clampC a.smp 0 maxSamples := by omega
+  cases a.xxs[i]? with
+  | none => rfl
+  | some s0 =>
+    simp only [Option.map_some, smpStepS, hlt, if_true]
+    cases a.xtra[i]? with
+    | none => exact epilogueLoop_ok s0
+    | some x0 => simp only; rw [epilogueSmp_loopOK]; exact epilogueLoop_ok s0
 
 end Xmp.LoadPost
